@@ -6,7 +6,9 @@
           (3 n seed)    n goroutines with their own Demuxer and Muxer: concurrent results = sequential results
           (4 mode scs)  several demux scenarios run in one process, one after the other or interleaved in goroutines:
                         each must give what the model gives for it alone (the implementation
-                        runs them a second time in the opposite order: two lists) *)
+                        runs them a second time in the opposite order: two lists)
+          (5 scenario)  a demux scenario in which the caller overwrites every value it is handed right after delivery:
+                        later results must be what the model (whose values cannot be overwritten) says *)
 From Coq Require Import ZArith List.
 Require Import Base.Tok Base.Iter Model.DemuxFull Extract.RunBase Extract.RunDemux Extract.RunMux.
 Import ListNotations.
@@ -17,6 +19,7 @@ Definition run_C16 (t : tok) : tok :=
   | 1 => let o := run_demux full_parsers (tnth 1 t) in TL [o; tnth 0 o]
   | 2 => TL [run_mux (tnth 1 t); TI 1]
   | 3 => TI 1
+  | 5 => run_demux full_parsers (tnth 1 t)
   | 4 => let o := TL (map (run_demux full_parsers) (tL (tnth 2 t))) in TL [o; o]
   | _ => TL []
   end.
